@@ -1,15 +1,17 @@
 """C13 — keys and scales map degrees to in-key notes; the nearest note is nearest.
 Theorems: coq/Props/C13.v (general, for arbitrary ascending scales, + the built-in table regenerated from
 the source).  Correspondence: Key.get / __contains__ / nearest_note / tonal patterns / note-name functions
-of the repository against the Coq model, exhaustively on the property's finite domain and on random user
-scales.  Oracle: independent pitch-class-set check of every implementation result."""
+of the repository against the Coq model, exhaustively on the property's finite domain, on random user
+scales, and in sessions (several keys per process that share names / tonics / scale objects, built, re-configured
+and queried in varying order; tonal patterns over key progressions under melodies with rests).
+Oracle: independent pitch-class-set check of every implementation result (step i against key i)."""
 from common import *
 
 PROP = "C13"
 META = {
  "engine": "F-pure-functions",
- "text": "Coq theorems (Props/C13.v, closed under the global context) prove for ARBITRARY ascending scales, octave sizes, tonics and all integer degrees/notes: the degree formula, strict monotonicity, degree-in-key, pitch-class invariance of membership, and that nearest_note is in key with no in-key note strictly closer; the built-in scale table is regenerated from the source on every run and proved to lie in that domain; note-name/MIDI-number round trips are proved by complete enumeration. The model is tied to /repo by a correspondence check run on every invocation: Key.get/__contains__/nearest_note, PFilterByKey/PNearestNoteInKey/PDegree and the util name functions are evaluated on the property's complete finite domain (all named scales x 12 tonics x notes 0..127 x degrees -64..64) plus random user scales, and compared inside Coq (vm_compute) with the model; an independent pitch-class-set oracle judges every implementation result and supplies the failing input.",
- "note": "Trusted: Coq kernel + VM; gen_tables.py; the Python harness; that Python int //, % are floor division (Z.div/Z.modulo). Modelled not verified: nothing float; Key built from names uses Scale.byname/note_name_to_midi_note (covered by the correspondence only for built-in names). nearest_note is compared by distance and membership, so a different tie-break is not an alarm.",
+ "text": "Coq theorems (Props/C13.v, closed under the global context) prove for ARBITRARY ascending scales, octave sizes, tonics and all integer degrees/notes: the degree formula, strict monotonicity, degree-in-key, pitch-class invariance of membership, and that nearest_note is in key with no in-key note strictly closer; the built-in scale table is regenerated from the source on every run and proved to lie in that domain; note-name/MIDI-number round trips are proved by complete enumeration. The model is tied to /repo by a correspondence check run on every invocation: Key.get/__contains__/nearest_note, PFilterByKey/PNearestNoteInKey/PDegree and the util name functions are evaluated on the property's complete finite domain (all named scales x 12 tonics x notes 0..127 x degrees -64..64) plus random user scales, and compared inside Coq (vm_compute) with the model; an independent pitch-class-set oracle judges every implementation result and supplies the failing input. Further theorems (C13_progression_aligned, C13_filter/snap/degree/rest_progression) cover the tonal patterns when the KEY is itself a pattern: every step consumes one note and one key, rests included, so output i is in / nearest in / the degree of key i; C13_session_frame/_reconfigure say that the definition of a key is the last one given to that key, whatever other keys exist (a scale's name is not part of the model). The check runs sessions - one process each - in which several keys that agree in name, tonic, octave size or scale object but differ in semitones are built, re-configured and queried in varying order, every key again after all others were built and queried, and the tonal patterns run over PSequence-s of those keys under melodies with rests; every result is judged against the key's own semitones (step i against key i) and compared with the model evaluated on the definition the model derives from the session.",
+ "note": "Trusted: Coq kernel + VM; gen_tables.py; the Python harness; that Python int //, % are floor division (Z.div/Z.modulo). Modelled not verified: nothing float; Key built from names uses Scale.byname/note_name_to_midi_note (covered by the correspondence only for built-in names). nearest_note is compared by distance and membership, so a different tie-break is not an alarm. Compared with the model only, not judged by the oracle: Key.semitones, the number of values a tonal pattern yields when one stream ends first, keys after attribute assignment (key.tonic = / key.scale =). PSequence(keys, r) yielding keys*r is taken from its documentation.",
 }
 HEADER = """From Isobar Require Import Base.Prelude Tonal.Key Tonal.Progression Generated.Tables.
 From Coq Require Import String.
@@ -734,7 +736,9 @@ def check(run):
     run.nontrivial("names")
     run.cov["rule"] = ("one case = one key (scale x tonic) evaluated on its whole note/degree range by Key.get, __contains__, "
                        "nearest_note, PFilterByKey, PNearestNoteInKey, PDegree; distinct by (scale, tonic); non-trivial = scale has >= 1 semitone. "
-                       "nearest_note compared by membership and distance, not identity.")
+                       "nearest_note compared by membership and distance, not identity.  A session (one process: 4-9 keys sharing names/tonics/"
+                       "scale objects, interleaved queries, re-configuration, pattern queries over key progressions with rests) counts as one case, "
+                       "distinct by its sequence of build/re-configure operations.")
 
 
 def replay_session(run, doc):
